@@ -154,27 +154,31 @@ func genNegatives(rng *rand.Rand, n int, thorough bool) []*negCase {
 	}
 
 	// 2. semantic classes: a valid random program plus one construct
+	type builder struct {
+		n     int                                                         // number of variants
+		build func(b baseProg, k int) (map[string]string, string, string) // files, root, note
+	}
 	type semantic struct {
 		class   string
 		invalid bool
 		targets []string
-		build   func(b baseProg, k int) (map[string]string, string, string) // files, root, note
+		builder
 	}
-	appendTo := func(snips ...string) func(b baseProg, k int) (map[string]string, string, string) {
-		return func(b baseProg, k int) (map[string]string, string, string) {
+	appendTo := func(snips ...string) builder {
+		return builder{len(snips), func(b baseProg, k int) (map[string]string, string, string) {
 			f := clone(b)
 			s := snips[k%len(snips)]
 			f[b.root] = f[b.root] + "\n" + s + "\n"
 			return f, b.root, s
-		}
+		}}
 	}
-	prependTo := func(snips ...string) func(b baseProg, k int) (map[string]string, string, string) {
-		return func(b baseProg, k int) (map[string]string, string, string) {
+	prependTo := func(snips ...string) builder {
+		return builder{len(snips), func(b baseProg, k int) (map[string]string, string, string) {
 			f := clone(b)
 			s := snips[k%len(snips)]
 			f[b.root] = s + "\n" + f[b.root]
 			return f, b.root, s
-		}
+		}}
 	}
 	deep := func(d int) string {
 		return "struct ZzDeep { 1: " + strings.Repeat("list<", d) + "i32" + strings.Repeat(">", d) + " f }"
@@ -203,7 +207,7 @@ func genNegatives(rng *rand.Rand, n int, thorough bool) []*negCase {
 			"include \"zz_missing.frugal\"",
 			"include \"sub/dir/zz_missing.thrift\"",
 		)},
-		{"circular_include", true, all, func(b baseProg, k int) (map[string]string, string, string) {
+		{"circular_include", true, all, builder{3, func(b baseProg, k int) (map[string]string, string, string) {
 			f := clone(b)
 			switch k % 3 {
 			case 0: // self include
@@ -220,7 +224,7 @@ func genNegatives(rng *rand.Rand, n int, thorough bool) []*negCase {
 			f["zz_c.frugal"] = "include \"" + b.root + "\"\nstruct ZzC { 1: i32 a }\n"
 			f[b.root] = "include \"zz_a.frugal\"\n" + f[b.root]
 			return f, b.root, "4-cycle through the root"
-		}},
+		}}},
 		{"unbalanced_braces", true, all, appendTo(
 			"struct ZzOpen { 1: i32 a",
 			"struct ZzOpen { 1: i32 a }}",
@@ -244,7 +248,7 @@ func genNegatives(rng *rand.Rand, n int, thorough bool) []*negCase {
 			"typedef ZzA ZzB\ntypedef ZzB ZzA\nstruct ZzUse { 1: ZzA a }",
 			"typedef ZzA ZzA\nservice ZzSvc { ZzA m(1: ZzA a) }",
 		)},
-		{"cyclic_typedef_in_container", false, all, appendTo(
+		{"cyclic_typedef_in_container", true, all, appendTo(
 			"typedef list<ZzA> ZzA",
 			"typedef map<string,ZzB> ZzA\ntypedef list<ZzA> ZzB\nstruct ZzUse { 1: ZzA a }",
 		)},
@@ -252,7 +256,7 @@ func genNegatives(rng *rand.Rand, n int, thorough bool) []*negCase {
 			"service ZzA extends ZzA { void m() }",
 			"service ZzA extends ZzB { void m() }\nservice ZzB extends ZzA { void n() }",
 		)},
-		{"unknown_extends", false, all, appendTo(
+		{"unknown_extends", true, all, appendTo(
 			"service ZzA extends NoSuchServiceZz { void m() }",
 			"service ZzA extends nosuchinclude.Base { void m() }",
 		)},
@@ -279,11 +283,26 @@ func genNegatives(rng *rand.Rand, n int, thorough bool) []*negCase {
 			"const i32 ZZ_N = 99999999999999999999999999999999999999",
 			"const double ZZ_N = 1e99999",
 			"const byte ZZ_N = 4096",
+		)},
+		{"mistyped_constant_value", false, all, appendTo(
 			"struct ZzN { 1: i32 a = \"text\" }",
 			"const list<i32> ZZ_N = {\"a\": 1}",
+			"const map<string,i32> ZZ_N = [1, 2]",
+			"const i32 ZZ_N = [1]",
+			"const string ZZ_N = 5",
+			"const bool ZZ_N = \"yes\"",
+			"struct ZzP { 1: i32 a }\nconst ZzP ZZ_N = 7",
+			"struct ZzP { 1: i32 a }\nconst ZzP ZZ_N = {\"nosuchfield\": 7}",
+			"enum ZzE { A }\nconst ZzE ZZ_N = \"A\"",
+			"enum ZzE { A }\nconst ZzE ZZ_N = 99",
+		)},
+		{"unresolved_constant_reference", false, all, appendTo(
 			"const i32 ZZ_N = ZZ_N",
 			"const i32 ZZ_N = NoSuchConstZz",
 			"enum ZzE { A }\nconst ZzE ZZ_N = ZzE.NOPE",
+			"struct ZzN { 1: i32 a = NoSuchConstZz }",
+			"const list<i32> ZZ_N = [NoSuchConstZz]",
+			"const i32 ZZ_A = ZZ_B\nconst i32 ZZ_B = ZZ_A",
 		)},
 		{"odd_but_maybe_valid", false, all, appendTo(
 			"struct ZzEmpty {}",
@@ -303,15 +322,30 @@ func genNegatives(rng *rand.Rand, n int, thorough bool) []*negCase {
 		)},
 		{"nesting_depth_150", false, nonJSON, appendTo(deep(150))},
 	}
-	perClass := 14
+	// quick: every variant once per target that can matter (input rejected by
+	// the validation stage: json + one rotating target; input that reaches the
+	// generators: every listed target); thorough: every variant x every listed
+	// target on several base programs
+	rounds := 1
 	if thorough {
-		perClass = 420
+		rounds = 6
 	}
 	for _, s := range sem {
-		for k := 0; k < perClass; k++ {
-			b := pick()
-			files, root, note := s.build(b, k)
-			add(&negCase{Class: s.class, Files: files, Root: root, Target: s.targets[(k/3+k)%len(s.targets)], Invalid: s.invalid, Note: note})
+		cyclic := strings.HasPrefix(s.class, "cyclic_typedef") // each case costs a 1 GB stack on the pinned tree
+		for round := 0; round < rounds; round++ {
+			for k := 0; k < s.n; k++ {
+				tgts := s.targets
+				if !thorough && (s.invalid || cyclic) && len(s.targets) > 2 {
+					tgts = []string{s.targets[0], s.targets[1+(k+round)%(len(s.targets)-1)]}
+				}
+				if thorough && cyclic && round > 0 {
+					tgts = []string{s.targets[(k+round)%len(s.targets)]}
+				}
+				for _, t := range tgts {
+					files, root, note := s.build(pick(), k)
+					add(&negCase{Class: s.class, Files: files, Root: root, Target: t, Invalid: s.invalid, Note: note})
+				}
+			}
 		}
 	}
 
@@ -332,12 +366,12 @@ func genNegatives(rng *rand.Rand, n int, thorough bool) []*negCase {
 		{"nesting_depth_1000", "struct S { 1: " + strings.Repeat("list<", 1000) + "i32" + strings.Repeat(">", 1000) + " f }\n", false, []string{"json", "html"}},
 		{"const_nesting_depth_1000", "const list<i32> C = " + strings.Repeat("[", 1000) + "1" + strings.Repeat("]", 1000) + "\n", false, all},
 		{"const_map_nesting_depth_1000", "const map<string,i32> C = " + strings.Repeat("{\"a\": ", 1000) + "1" + strings.Repeat("}", 1000) + "\n", false, all},
-		{"very_long_identifier", "struct " + strings.Repeat("A", 200000) + " { 1: i32 " + strings.Repeat("b", 200000) + " }\nservice " + strings.Repeat("S", 100000) + " { void " + strings.Repeat("m", 100000) + "() }\n", false, all},
+		{"very_long_identifier", "struct " + strings.Repeat("A", 20000) + " { 1: i32 " + strings.Repeat("b", 20000) + " }\nservice " + strings.Repeat("S", 10000) + " { void " + strings.Repeat("m", 10000) + "() }\n", false, all},
 		{"very_long_string_literal", "const string S = \"" + strings.Repeat("x", 1<<20) + "\"\n", false, all},
 		{"many_fields", func() string {
 			var b strings.Builder
 			b.WriteString("struct Wide {\n")
-			for i := 1; i <= 5000; i++ {
+			for i := 1; i <= 600; i++ {
 				fmt.Fprintf(&b, " %d: i32 f%d,\n", i, i)
 			}
 			b.WriteString("}\n")
@@ -450,6 +484,7 @@ type negStats struct {
 	byClass map[string]int
 	exits   map[string]map[string]int // class -> exit status -> n
 	wallMax time.Duration
+	wall    map[string]float64 // class -> summed run time (s)
 }
 
 // runNegative executes one negative input and applies the oracle.
@@ -478,6 +513,7 @@ func (c *c11) runNegative(nc *negCase, st *negStats) {
 		st.exits[nc.Class] = map[string]int{}
 	}
 	st.exits[nc.Class][exit]++
+	st.wall[nc.Class] += r.Wall.Seconds()
 	if r.Wall > st.wallMax {
 		st.wallMax = r.Wall
 	}
@@ -499,7 +535,7 @@ func (c *c11) runNegative(nc *negCase, st *negStats) {
 	kind := crashKind(text, r.ExitCode, r.Signaled)
 	switch {
 	case r.TimedOut:
-		c.violation("C11:hang:"+nc.Class, fmt.Sprintf("the compiler did not terminate within 20 s, twice (-gen %s)", nc.Target), witness())
+		c.violation("C11:hang:"+nc.Class, fmt.Sprintf("the compiler did not terminate within 20 s, nor within 120 s when run again alone (-gen %s)", nc.Target), witness())
 	case kind != "":
 		c.mu.Lock()
 		c.crashSeen[kind+" "+topFrame(text)]++
